@@ -86,8 +86,8 @@ macro_rules! c07_lockfree_recycle {
         }
     };
 }
-c07_lockfree_recycle!(c07_lockfree_recycle_s64, thorough, 66, 64);
-c07_lockfree_recycle!(c07_lockfree_recycle_s256, thorough, 66, 256);
+c07_lockfree_recycle!(c07_lockfree_recycle_s64, probe, 66, 64);
+c07_lockfree_recycle!(c07_lockfree_recycle_s256, probe, 66, 256);
 
 macro_rules! c07_lockfree_class {
     ($name:ident, $tier:ident, $unwind:literal, $l1:literal, $h1:literal, $l2:literal, $h2:literal, $l3:literal, $h3:literal) => {
@@ -105,15 +105,15 @@ macro_rules! c07_lockfree_class {
     };
 }
 // a freed block of one request size re-issued for another size of the same size class
-c07_lockfree_class!(c07_lockfree_class144, thorough, 66, 129, 144, 129, 144, 1, 16);
-c07_lockfree_class!(c07_lockfree_class32, thorough, 66, 25, 32, 25, 32, 1, 8);
-c07_lockfree_class!(c07_lockfree_class_cross, thorough, 66, 1, 24, 9, 40, 1, 24);
-c07_lockfree_recycle!(c07_lockfree_recycle_s8192, thorough, 66, 8192);
+c07_lockfree_class!(c07_lockfree_class144, probe, 66, 129, 144, 129, 144, 1, 16);
+c07_lockfree_class!(c07_lockfree_class32, probe, 66, 25, 32, 25, 32, 1, 8);
+c07_lockfree_class!(c07_lockfree_class_cross, probe, 66, 1, 24, 9, 40, 1, 24);
+c07_lockfree_recycle!(c07_lockfree_recycle_s8192, probe, 66, 8192);
 
 zv_harness! {
     name: c07_lockfree_capacity,
     prop: "C07",
-    tier: thorough,
+    tier: probe,
     unwind: 66,
     stubs: [alloc::fmt::format => crate::common::stubs::fmt_format],
     targets: "memory::lockfree_pool::LockFreeMemoryPool::{allocate, allocate_new_block, deallocate, ptr_to_offset}",
@@ -279,7 +279,7 @@ fn fixedcap_hist_cfg(max_block: usize) {
 zv_harness! {
     name: c07_fixedcap_hist,
     prop: "C07",
-    tier: thorough,
+    tier: probe,
     unwind: 12,
     stubs: [alloc::fmt::format => crate::common::stubs::fmt_format],
     targets: "memory::fixed_capacity_pool::FixedCapacityMemoryPool::{new, allocate, generate_size_classes, find_size_class, allocate_from_free_list}, FixedCapacityAllocation::{as_ptr,size}",
@@ -291,7 +291,7 @@ zv_harness! {
 zv_harness! {
     name: c07_fixedcap_hist_unaligned_max,
     prop: "C07",
-    tier: thorough,
+    tier: probe,
     unwind: 12,
     stubs: [alloc::fmt::format => crate::common::stubs::fmt_format],
     targets: "memory::fixed_capacity_pool::FixedCapacityMemoryPool::{new, allocate, generate_size_classes, find_size_class, allocate_from_free_list}, FixedCapacityAllocation::{as_ptr,size}",
